@@ -37,7 +37,7 @@ def family_result(name, tier):
         jobs, compile_rejects = build_literal_units(jobs)
     exes = vlib.build_many(jobs)
     log("[%s] built %d recorders in %.1fs" % (name, len(jobs), time.time() - t0))
-    wdir = os.path.join(cdir, "%s-%s.d" % (name, key))
+    wdir = os.path.join(cdir, "%s-%s.%d.d" % (name, key, os.getpid()))      # private to this process
     shutil.rmtree(wdir, ignore_errors=True)
     os.makedirs(wdir)
     t1 = time.time()
@@ -56,8 +56,9 @@ def family_result(name, tier):
     total.bad += compile_rejects
     total.wall = time.time() - t0
     total.recorders = [j["tag"] for j in jobs]
-    with open(cpath, "wb") as f:
+    with open(cpath + ".tmp%d" % os.getpid(), "wb") as f:
         pickle.dump(total, f)
+    os.replace(cpath + ".tmp%d" % os.getpid(), cpath)
     return total
 
 
